@@ -326,6 +326,53 @@ func ruleStateless(c *Ctx, rule string, root *ssa.Function) {
 	}
 }
 
+// ruleStatelessGlobals is ruleStateless restricted to package-level state: for methods whose job is to fill their
+// receiver (decoders) only the global clause applies.
+func ruleStatelessGlobals(c *Ctx, rule string, root *ssa.Function) {
+	r := c.Run
+	r.Rule(rule, "the function and its callees write no package-level variable: the result depends on the arguments only")
+	info := effectsFor(c.Prog)
+	s := info.A.Sums[root]
+	if s == nil {
+		r.Unknown(rule, funcKey(root), c.Prog.Rel(root.Pos()), "function summarised", "not in the analysed module")
+		return
+	}
+	var globs, opq []string
+	pos := ""
+	dup := map[string]bool{}
+	for _, m := range []map[string][]*effects.Effect{s.Writes, s.Appends} {
+		for _, l := range sortedStr(m) {
+			for _, e := range m[l] {
+				if g := effects.GlobalName(l); g != "" {
+					if t := g + ": " + e.Chain(); !dup[t] {
+						dup[t] = true
+						globs = append(globs, t)
+					}
+					if pos == "" {
+						pos = posOf(c, e)
+					}
+				}
+			}
+		}
+	}
+	for _, l := range sortedStr(s.Opaque) {
+		if effects.GlobalName(l) != "" {
+			for _, e := range s.Opaque[l] {
+				opq = append(opq, l+": "+e.Chain())
+			}
+		}
+	}
+	key := funcKey(root)
+	if len(globs) > 0 {
+		r.Bad(rule, key+"/globals", pos, "no write to a package-level variable", strings.Join(globs, "; "))
+	} else {
+		r.OK(rule, key+"/globals", c.Prog.Rel(root.Pos()), "no write to a package-level variable", fmt.Sprintf("summary over %d reachable module functions has no write with a global root", reachableCount(info, root)), true)
+	}
+	if len(opq) > 0 {
+		r.Unknown(rule, key+"/opaque", c.Prog.Rel(root.Pos()), "every callee has a summary or effect-table entry", strings.Join(opq, "; "))
+	}
+}
+
 // reachableCount counts module functions reachable from root through resolved calls.
 func reachableCount(info *effectsInfo, root *ssa.Function) int {
 	seen := map[*ssa.Function]bool{}
